@@ -18,7 +18,7 @@ PKGDIR = {"postscript": ".", "pfb": "pfb", "type1": "type1", "afm": "afm", "name
 
 
 def sh(cmd, cwd, timeout=3600):
-    return subprocess.run(cmd, cwd=cwd, env=ENV, shell=True, capture_output=True, text=True, timeout=timeout)
+    return subprocess.run(cmd, cwd=cwd, env=ENV, shell=True, capture_output=True, text=True, errors="replace", timeout=timeout)
 
 
 def worktree():
